@@ -119,6 +119,12 @@ func genResult(r *hx.Rand, vals []string, i int, unitProj bool) ResT {
 		res.Cfg = append(res.Cfg, CfgT{k, v, !r.Chance(1, 12)})
 	}
 	res.Units = []string{"ns/op"}
+	if r.Chance(1, 8) {
+		// a result without measurements: ProjectValues on a .unit projection runs the closures
+		// (fields may appear) but makes no key
+		res.Units = nil
+		return res
+	}
 	if unitProj || r.Chance(1, 4) {
 		res.Units = append(res.Units, "B/op")
 		if r.Chance(1, 3) {
